@@ -225,6 +225,41 @@ def _mod_struct(it, m):
     m.ns['calcsize'] = calcsize
     m.ns['unpack'] = unpack
 
+    class StructVal:
+        """struct.Struct(fmt): the compiled form of a format; unpack / unpack_from / size / format delegate to the module functions"""
+
+        def __init__(self, fmt):
+            self.fmt = fmt
+            self.size = _struct.calcsize(fmt)
+
+        def py_getattr(self, it_, name, node=None):
+            if name == 'size':
+                return self.size
+            if name == 'format':
+                return self.fmt
+            if name == 'unpack':
+                return Builtin('Struct.unpack', lambda it2, a, k, n: unpack.impl(it2, [self.fmt, a[0]], {}, n))
+            if name == 'unpack_from':
+                def unpack_from(it2, a, k, n):
+                    buf = a[0]
+                    off = a[1] if len(a) > 1 else k.get('offset', 0)
+                    if not isinstance(off, int):
+                        raise Unsupported('unpack_from with a symbolic offset')
+                    part = libattr.getslice(it2, buf, off, off + self.size, None, n)
+                    return unpack.impl(it2, [self.fmt, part], {}, n)
+                return Builtin('Struct.unpack_from', unpack_from)
+            raise Unsupported('attribute %s of struct.Struct' % name)
+
+    @_builtin('Struct')
+    def Struct(it, args, kw, n):
+        if not isinstance(args[0], str):
+            raise Unsupported('symbolic struct format')
+        try:
+            return StructVal(args[0])
+        except _struct.error:
+            raise PyExc('struct.error', 'bad format', site=(getattr(n, 'lineno', None), 'struct'), kind='struct')
+    m.ns['Struct'] = Struct
+
 
 # ------------------------------------------------------------------------------ ctypes
 def _mod_ctypes(it, m):
